@@ -11,6 +11,7 @@ import Hive.Gen.C11_Stmts
 import Hive.Proofs.OMapWidth
 import Hive.Proofs.OMapMethods
 import Hive.Proofs.OMapDecode
+import Hive.Proofs.OMapAlias
 /-!
 # C11 — OrderedMap and Set: insertion-ordered model, exact diffs, no deadlock
 
@@ -637,6 +638,25 @@ example : (AMap.run [.set 3 0, .set 1 0, .set 2 0, .del 1]).length < 5 ∧
     (PMap.weakWalk true 5 (PMap.run [.set 3 0, .set 1 0, .set 2 0, .del 1]) (PMap.run [.set 3 0, .set 1 0, .set 2 0, .del 1]).head
       (PMap.delSelfScript [3, 2])).2.1.map (·.2.1) = [3, 2] := by decide
 
+/-- **`s.AddAll(s)` / `s.Apply(added = s)` — the argument is the receiver itself.**  The consumer of every entry `Set`s
+that very entry again; `Set` of a live key only overwrites the value cell of its element.  On the map reached by any history
+the interleaved iteration therefore visits every key exactly once in insertion order, runs to completion, and leaves the
+dictionary (hence the key order) and the structural invariant as they were — what the abstract model (`addAll` applied to
+the receiver's own elements) says: nothing is reported as added, no element appears or disappears.  With
+`C11_alias_deleteall` this covers every self-aliased call that writes while it iterates (`Replace` reads its argument
+completely before its first write, `HasAll`/`Equals`/`Intersect` do not write). -/
+theorem C11_alias_addall (h : List MOp) (v fuel : Nat) (hf : (AMap.run h).length < fuel) (s : ASet) :
+    (let r := PMap.weakWalk true fuel (PMap.run h) (PMap.run h).head (PMap.setSelfScript v (AMap.keys (AMap.run h)))
+     r.2.1.map (·.2.1) = AMap.keys (AMap.run h) ∧ r.2.2 = true ∧ r.1.dict = (PMap.run h).dict ∧
+     AMap.keys (PMap.abs r.1) = AMap.keys (AMap.run h) ∧ PMap.PInv r.1) ∧
+    elems (addAll s (elems s)).2 = [] ∧ (∀ x, x ∈ elems (addAll s (elems s)).1 ↔ x ∈ elems s) :=
+  ⟨PMap.setSelf_run h v fuel hf, addAll_self s⟩
+
+example : (AMap.run [.set 3 0, .set 1 0, .set 2 0, .del 1]).length < 5 ∧
+    (PMap.weakWalk true 5 (PMap.run [.set 3 0, .set 1 0, .set 2 0, .del 1]) (PMap.run [.set 3 0, .set 1 0, .set 2 0, .del 1]).head
+      (PMap.setSelfScript 0 [3, 2])).2.1.map (·.2.1) = [3, 2] ∧
+    addAll (newSet [3, 2]) [3, 2] = (newSet [3, 2], []) := by decide
+
 /-! ## concurrency: every method returns -/
 open Hive.Conc
 
@@ -1127,6 +1147,29 @@ example : (selfCalls "s" ["rlock s.applyMutex", "defer runlock s.applyMutex", "f
     match resolveOnSet path with
     | some (decl, n) => decl != "set" || (skelTable.lookup ("set", n)).map modeOfSkel == some AMode.none
     | none => false) = false := by decide
+
+/-- **The two inner mutexes are leaves** — derived from the regenerated skeletons, for every method of the regenerated
+method set of `OrderedMap`: while `o.mutex` is held (from `Lock`/`RLock` to the matching release; a deferred release holds
+it to the end; callbacks included) the only calls on the receiver go to `o.dictionary` and are among `Get`/`Set`/`Has`/
+`Delete` of the `ShrinkingMap`; and for each `ShrinkingMap` method used here and by `SetArithmetic`: while `s.mutex` is held
+only the helpers `delete`/`shouldShrink`/`shrink` are called, whose skeletons never touch the mutex (transitively).  This is
+the hypothesis "every map mutex is a leaf" of the lock scripts (`WF`), and what a `Clone` that iterates through `o.ForEach`
+under its read lock violates (`C11_clone_reentrant_deadlock_witness`). -/
+theorem C11_no_nested_leaf_mutex :
+    Hive.Gen.C11Methods.methods_OrderedMap.all (fun m =>
+      match skelTable.lookup ("OrderedMap", m.1) with
+      | some sk => (heldSelfCalls "o" "mutex" false sk).all (fun p =>
+          ["dictionary.Get", "dictionary.Set", "dictionary.Has", "dictionary.Delete"].contains p)
+      | none => false) = true ∧
+    ["Set", "Get", "Has", "Compute", "Delete", "Clear"].all (fun n =>
+      match shrinkSkelTable.lookup n with
+      | some sk => (heldSelfCalls "s" "mutex" false sk).all (shrinkHelperLockFree 4)
+      | none => false) = true := by decide
+
+/-- a `Clone` that iterates through `o.ForEach` while holding the read lock is rejected by the same reading -/
+example : heldSelfCalls "o" "mutex" false
+    ["rlock o.mutex", "defer runlock o.mutex", "func{", "call cloned.Set", "}func", "call o.ForEach", "return"] = ["ForEach"] := by
+  decide
 
 /-- **Every selectable method is one of the modelled lock scripts.**  For every entry of the regenerated method sets of
 `set` and `OrderedMap` (hence of the two types in between) there is a list of `Call`s — the alphabet of `methodScript`, over
